@@ -362,13 +362,33 @@ def Cst.cf : Cst → Bool
   | .selOr e c1 _ _ _ c2 _ _ d => e.cf && c1.isEmpty && c2.isEmpty && d.cf
   | .lam _ c1 _ c2 _ b => c1.isEmpty && c2.isEmpty && b.cf
   | .un _ c _ e => c.isEmpty && e.cf
-  | .bin .. => false
+  | .bin l c1 _ _ c2 _ r => l.cf && c1.isEmpty && c2.isEmpty && r.cf
 def Items.cf : Items → Bool
   | .nil => true
   | .cmt _ _ _ => false
   | .elem _ c rest => c.cf && rest.cf
   | .bind _ _ c1 _ c2 _ v c3 _ rest => c1.isEmpty && c2.isEmpty && c3.isEmpty && v.cf && rest.cf
 end
+
+/-- `Expr.absorbable` read off the tree -/
+def Cst.absorbableC : Cst → Bool
+  | .paren (.elem _ c .nil) _ => c.absorbableC
+  | .list .. => true
+  | .set .. => true
+  | _ => false
+
+/-- `Expr.sameOpChain` read off the tree -/
+def Cst.sameOpChainC : Cst → Text → Bool
+  | .bin _ _ g1 o _ _ _, op => o == op && g1.count '\n' != 0
+  | _, _ => false
+
+/-- `binRightIndent` read off the tree (comment-free: no leading comment on the right operand) -/
+def binRightIndentC (op : Text) (r : Cst) (i : Nat) : Nat :=
+  if chainable op then
+    if r.sameOpChainC op then i
+    else if r.absorbableC then i
+    else i + 2
+  else i
 
 /-- the extra line break a blank line in the gap leaves behind -/
 def blankGap (g : Text) : Text := if gapHasEmptyLineOffsets g then ['\n'] else []
@@ -420,7 +440,12 @@ def Cst.norm : Cst → Nat → Cst
   -- operator, nothing or a line break (the operand then at the indentation read from the gap), operand
   | .un op c g e, i =>
     .un op c (if containsNL g then vgap g (indentFromGap g) else []) (e.norm (if containsNL g then indentFromGap g else i))
-  | .bin l c1 g1 op c2 g2 r, _ => .bin l c1 g1 op c2 g2 r
+  -- left, one space or as many line breaks as the source has and the current indentation, operator, one space
+  -- or as many line breaks as the source has and the indentation of the right operand, right
+  | .bin l c1 g1 op c2 g2 r, i =>
+    .bin (l.norm i) c1 (if g1.count '\n' = 0 then [' '] else List.replicate (g1.count '\n') '\n' ++ spaces i) op c2
+      (if g2.count '\n' = 0 then [' '] else List.replicate (g2.count '\n') '\n' ++ spaces (binRightIndentC op r i))
+      (r.norm (if g2.count '\n' = 0 then i else binRightIndentC op r i))
 /-- items of a container that spans several lines, one per line at indentation `j` -/
 def Items.normML : Items → Nat → Items
   | .nil, _ => .nil
